@@ -4,7 +4,7 @@ func init() {
 	register(&Prop{
 		ID: "C04", Title: "KVStore views and wrappers obey one ordered-map contract", Level: "exploration",
 		Subs: []Sub{
-			{Pkg: "kvsim", Harness: "seq", Weight: 1},
+			{Pkg: "kvsim", Harness: "seq", Weight: 1, Native: true},
 		},
 		QuickS: 30, ThoroughS: 600,
 		Rule:   "each run draws a wrapper stack (mapdb, flushkv(mapdb), debug(mapdb), flushkv(debug(mapdb)), debug(flushkv(mapdb))) applied at the root or on a sub-view, a view tree (depth <=3, WithRealm / WithExtendedRealm over realms {\"\",a,ab,a\\xff,\\xff,b}), and 6-30 calls by ONE client (Get, Has, Set, Delete, DeletePrefix, Clear, Iterate/IterateKeys in default/forward/backward direction with a consumer that stops after 0-3 entries, up to two interleaved batches with Set/Delete/Commit/Cancel, Flush, Realm, view creation) over keys/prefixes of length 0-3 from {0x00,a,b,0xff} and empty/nil values, plus injected events at decision-chosen points: Close on an arbitrary view, overwriting the caller's buffers after Set / Commit returned, overwriting values and keys handed out by Get / Iterate / IterateKeys; there is no schedule to draw (one task); distinct = distinct hash of the event log (configuration, calls, results); non-trivial = at least two recorded decisions",
